@@ -233,3 +233,49 @@ def f_binary_repr(case):
 FACETS.append(Facet('np/density_matrix-large-N', f_density_large, strategy=lambda t: st_density_large(), examples={'quick': 40, 'thorough': 1500}, shards={'quick': 2, 'thorough': 8}))
 FACETS.append(Facet('np/binary_repr', f_binary_repr, kind='enum', cases=lambda t, s, n: ({'w': w, 'explicit': e} for w in range(1, 14 if t == 'quick' else 17) for e in (False, True)),
                     exhaustive=lambda t: True))
+
+
+def f_state_history(case):
+    """one state object: density_matrix / sample queried, state evolved in place (gates, maps, rotations, measurement), queried again."""
+    N = case['N']
+    S, c = C.dec_state('np', case['state'])
+    nq = 0
+    for i, stp in enumerate(case['steps']):
+        t = stp['t']
+        if t in ('density', 'sample', 'arith'):
+            l, k, r = B.check_tableau(S, 'step %d' % i)
+            G = ref.RefGroup(l[r:N], k[r:N])
+            nq += 1
+            if t == 'sample':
+                rng.seed_all(stp['seed'])
+                sl, sk = B.read_list(S.sample(4))
+                for j in range(len(sk)):
+                    check(G.contains(sl[j], sk[j]) == 1, 'step %d: sampled %s is not in the current stabilizer group %s' % (i, ref.show(sl[j], sk[j]), list(G.canonical())), 'history-sample')
+            else:
+                dm = S.density_matrix if t == 'density' else 2 * (S / 2)
+                dl, dk = B.read_list(dm)
+                cs = np.asarray(dm.cs)
+                check(len(dk) == 2 ** (N - r), 'step %d: expansion has %d terms, current state has %d group elements' % (i, len(dk), 2 ** (N - r)), 'history-density')
+                for j in range(len(dk)):
+                    coef = cs[j] * 1j ** int(dk[j]) * 2.0 ** N
+                    kk = {1: 0, -1: 2}.get(int(round(coef.real))) if abs(coef.imag) < 1e-9 else None
+                    check(kk is not None and G.contains(dl[j], kk) == 1, 'step %d: expansion term %s (coefficient %r) is not an element of the current group %s (history %s)' % (
+                        i, ref.show(dl[j], dk[j]), cs[j], list(G.canonical()), [x['t'] for x in case['steps'][:i]]), 'history-density')
+        else:
+            S = SO.apply_op(S, dict(stp, op=t))
+    ts = [x['t'] for x in case['steps']]
+    q = [i for i, x in enumerate(ts) if x in ('density', 'arith', 'sample')]
+    return {'nt': len(q) >= 2 and any(x in ('rotate', 'transform', 'gate', 'measure', 'circuit') for x in ts[q[0]:q[-1]]), 'labels': ['N=%d' % N, 'queries=%d' % min(nq, 5)]}
+
+
+def st_state_history(hiN):
+    def inner(N):
+        steps = SO.st_steps(N)
+        evo = st.one_of(steps['rotate'], steps['transform'], steps['gate'], steps['measure'], steps['circuit']).map(lambda o: dict({k: v for k, v in o.items() if k != 'op'}, t=o['op']))
+        query = st.one_of(st.just({'t': 'density'}), st.just({'t': 'density'}), st.just({'t': 'arith'}), st.fixed_dictionaries({'t': st.just('sample'), 'seed': gen.st_seed()}))
+        mid = st.lists(st.one_of(evo, evo, query), min_size=1, max_size=6)
+        return st.fixed_dictionaries({'N': st.just(N), 'state': gen.st_state(N), 'steps': st.tuples(query, mid, query).map(lambda t: [t[0]] + t[1] + [t[2]])})
+    return st.integers(1, hiN).flatmap(inner)
+
+
+FACETS.append(Facet('np/state-histories', f_state_history, strategy=lambda t: st_state_history(4), examples={'quick': 800, 'thorough': 40000}, shards={'quick': 2, 'thorough': 8}))
